@@ -11,7 +11,7 @@ SIZES = [0, 1, 2047, 2048, 2049, 65535, 65536, 65537, 200000]
 
 def grid(size, rng, full):
     offs = sorted({0, 1, max(0, size - 1), size, size + 1, 2047, 2048, 2049, 65535, 65536, 65537, size // 2, size + 70000})
-    far = [2 ** 40, 2 ** 44 - 1, 2 ** 44, 2 ** 53 + 1, 2 ** 62 - 1]     # far past the end, also past what the host file system seeks to
+    far = [2 ** 40, 2 ** 44 - 1, 2 ** 44, 2 ** 53 + 1, 2 ** 62 - 1, 2 ** 63 - 1, 2 ** 63, 2 ** 64 - 1]     # far past the end, also past what the host file system seeks to
     lims = sorted({0, 1, 2047, 2048, 2049, 65535, 65536, 65537, max(0, size - 1), size, size + 1, 131072 + 5})
     pairs = [(o, l) for o in offs for l in lims]
     if not full:
